@@ -26,6 +26,21 @@ def _chunks(seq, cuts):
     return [seq[x:y] for x, y in zip(b[:-1], b[1:])]
 
 
+_HIT = []
+
+
+def _hit_class():
+    if not _HIT:
+        from bionumpy.bnpdataclass import bnpdataclass
+
+        @bnpdataclass
+        class Hit:
+            chromosome: str
+            position: int
+        _HIT.append(Hit)
+    return _HIT[0]
+
+
 def check_vector(v):
     import bionumpy as bnp
     from bionumpy.streams import BnpStream, NpDataclassStream, groupby
@@ -84,6 +99,23 @@ def check_vector(v):
         if o2 != ("ok", wantg):
             rep("groupby(in-memory)", wantg, o2)
 
+    # the same group-by with the key held as a ragged text column (as entries read from BAM / user-defined types have): keys that are
+    # prefixes of one another (chr1, chr11) are different groups
+    Hit = _hit_class()
+
+    def groups_ragged(stream):
+        b = [0] + list(cuts)
+        if stream:
+            data = NpDataclassStream(iter([Hit(keys[x:y], (np.arange(x, y) + 1)) for x, y in zip(b[:-1], b[1:])]), dataclass=Hit)
+        else:
+            data = Hit(keys, np.arange(n) + 1)
+        return [[name, [int(p) for p in g.position.tolist()]] for name, g in groupby(data, "chromosome")]
+    for stream in (True, False):
+        o = outcome(groups_ragged, stream)
+        calls += 1
+        if o != ("ok", wantg):
+            rep("groupby[ragged key%s]" % ("" if stream else ", in-memory"), wantg, o)
+
     def rechunk():
         out = chunk_entries(NpDataclassStream(iter(tchunks), dataclass=Interval), v["nchunk"])
         return [[int(s) // 2 + 1 for s in c.start.tolist()] for c in out]
@@ -134,6 +166,15 @@ def check_vector(v):
         res["pileup.get_data"] = [[c, int(s), int(e), int(x)] for c, s, e, x in zip(d.chromosome.tolist(), d.start.tolist(), d.stop.tolist(), d.value.tolist())]
         d = bnp.compute(iv().get_mask().get_data())
         res["mask.get_data"] = [[c, int(s), int(e)] for c, s, e in zip(d.chromosome.tolist(), d.start.tolist(), d.stop.tolist())]
+        # values of the pile-up under in-memory stranded windows ('+', '-' and '.'), and their mean profile
+        from bionumpy.datatypes import Bed6
+        wn = [nm for nm in KEYNAMES.values() for _ in range(3)]
+        ws = np.array([0, 2, 5] * len(KEYNAMES), dtype=int)
+        windows = g.get_intervals(Bed6(wn, ws, ws + 4, ["w"] * len(wn), np.zeros(len(wn), dtype=int), ["+", "-", "."] * len(KEYNAMES)), stranded=True)
+        rows = bnp.compute(iv().get_pileup()[windows])
+        res["pileup[stranded windows]"] = [[int(x) for x in np.asarray(r.to_array() if hasattr(r, "to_array") else r).tolist()] for r in rows]
+        prof = bnp.compute(np.mean(iv().get_pileup()[windows], axis=0))
+        res["mean profile"] = [float(x) for x in np.asarray(prof).tolist()]
         return res
     so = outcome(pipelines, True)
     mo = outcome(pipelines, False)
